@@ -112,9 +112,21 @@ NEEDS5 = {
  "C19": "a non-ASCII character whose low seven bits equal an accepted character",
  "C20": "three like pieces that can reach one square, the one sharing the mover's file scanned before the one sharing its rank",
 }
+NEEDS6 = {
+ "C01": "a builder state with a single castling right naming a rook on the wrong side of the king (short = a-file rook); then generation",
+ "C02": "play / try_play of an ordinary one-square king move onto the g- or c-file while that wing's right exists (Chess960 king on f1 / d1 / b1)",
+ "C03": "a null move after which the passer's own king stands alone between one of its sliders and the enemy king",
+ "C06": "a record that stops after the en-passant field (four or five fields)",
+ "C07": "plain FEN of a position with two own back-rank rooks on the side of a king that still holds that wing's right (a/h-file right)",
+ "C08": "a half-move clock field above 100 (101, 255, 65535)",
+ "C09": "a builder state with an en-passant square and a non-zero half-move clock (its record no longer parses)",
+ "C12": "a position with a legal move, clock below 100 and only kings plus at most two minor pieces",
+ "C13": "",
+ "C20": "an orthodox board where the side to move has lost one castling right; display_uci_move of the remaining castle",
+}
 ONLY = [a for a in sys.argv[1:] if not a.startswith("--")]
 for d in sorted(os.listdir(os.path.join(HERE, "seeded"))):
-    m = re.match(r"agent([2345]?)-(C\d+)$", d)
+    m = re.match(r"agent([23456]?)-(C\d+)$", d)
     if not m:
         continue
     if ONLY and not any(o in d for o in ONLY):
@@ -158,7 +170,7 @@ for d in sorted(os.listdir(os.path.join(HERE, "seeded"))):
     meta = {
         "breaks_property": pid,
         "written_by": "independent sub-agent given only the property text and a scratch worktree",
-        "needs_to_manifest": {1: NEEDS, 2: NEEDS2, 3: NEEDS3, 4: NEEDS4, 5: NEEDS5}[rnd].get(pid, ""),
+        "needs_to_manifest": {1: NEEDS, 2: NEEDS2, 3: NEEDS3, 4: NEEDS4, 5: NEEDS5, 6: NEEDS6}[rnd].get(pid, ""),
         "round": rnd,
         "files": ["patch.diff", "demo/", "NOTES.md"],
         "independent_confirmation": conf,
